@@ -1332,6 +1332,13 @@ mod convert {
         ) -> ConvertResult<(LineString, DirectoryId, Option<FileInfo>)> {
             let from_name =
                 Self::convert_string(from_file.path_name(), from_dwarf, encoding, line_strings)?;
+            if let LineString::String(ref name) = from_name {
+                // Only `DW_LNE_define_file` can have an empty name for these versions,
+                // and it can't be written because an empty name ends the file table.
+                if name.is_empty() && encoding.version <= 4 {
+                    return Err(ConvertError::UnsupportedLineInstruction);
+                }
+            }
             let from_dir = from_file.directory_index();
             if from_dir >= dirs.len() as u64 {
                 return Err(ConvertError::InvalidDirectoryIndex);
